@@ -19,8 +19,10 @@ rm $WT/$PKG/zz_demo_test.go
 git -C $WT checkout -q -- . ; git -C $WT clean -fdq
 echo "demo_without=$A (want 0) build_with=$B (want 0) demo_with=$C (want !=0) existing_tests_with=$D (want 0)"
 git -C /repo apply $M/patch.diff || { echo "patch does not apply to /repo"; exit 3; }
+cp /verif/evidence/$P.json /tmp/evidence_$P.bak 2>/dev/null
 (cd /verif && ./check $P > $OUT/check_with.log 2>&1); E=$?
 git -C /repo checkout -q -- .
+cp /tmp/evidence_$P.bak /verif/evidence/$P.json 2>/dev/null   # evidence must describe the unchanged tree
 tail -3 $OUT/check_with.log | cut -c1-300
 echo "check_exit=$E (want 1)"
 cp /verif/replays/$P.json $OUT/replay.json 2>/dev/null
